@@ -106,6 +106,7 @@ func worker(scenarios []Scenario, sh string, budget time.Duration) {
 		}
 	}
 	only := os.Getenv("VERIF_ONLY")
+	var selftests, selftestExecs int64
 	for idx, sc := range scenarios {
 		if idx%k != i && only == "" {
 			continue
@@ -209,6 +210,33 @@ func worker(scenarios []Scenario, sh string, budget time.Duration) {
 			st.Bound = stats.BoundCompleted
 		}
 		st.Outcomes = len(outcomes)
+		// state-cache soundness self-test on a sample of the scenarios: the same exploration
+		// without the cache must see exactly the same set of outcomes
+		if !vrt.RaceEnabled && vio == nil && res.Infra == "" && !stats.Capped && idx%41 == 0 && stats.Executions < 30000 {
+			withCache := outcomes
+			outcomes = map[string]bool{}
+			bad := false
+			st2 := vrt.Explore(vrt.Options{MaxBound: bound, Cache: false, Delay: sc.Delay, Stop: func() bool { return time.Now().After(scDeadline) }},
+				body, func(x *vrt.Exec) bool {
+					if f := judge(x); f != nil && !known[strings.ReplaceAll(f.Sig, " ", "_")] {
+						bad = true
+						return false
+					}
+					return true
+				})
+			if !st2.Capped {
+				if bad || len(outcomes) != len(withCache) {
+					res.Infra = fmt.Sprintf("scenario %s: state-cache self-test failed: %d outcomes with the cache, %d without (violation without cache: %v)", sc.Name, len(withCache), len(outcomes), bad)
+				}
+				for o := range outcomes {
+					if !withCache[o] && res.Infra == "" {
+						res.Infra = fmt.Sprintf("scenario %s: state-cache self-test failed: outcome %q is reached only without the cache", sc.Name, o)
+					}
+				}
+				selftests++
+				selftestExecs += st2.Executions
+			}
+		}
 		res.Scenarios = append(res.Scenarios, st)
 		if vio != nil {
 			res.Violations = append(res.Violations, *vio)
@@ -227,6 +255,11 @@ func worker(scenarios []Scenario, sh string, budget time.Duration) {
 	if WorkerExtra != nil {
 		res.Extra = WorkerExtra()
 	}
+	if res.Extra == nil {
+		res.Extra = map[string]int64{}
+	}
+	res.Extra["state_cache_selftest_scenarios"] = selftests
+	res.Extra["state_cache_selftest_executions_without_cache"] = selftestExecs
 	b, _ := json.Marshal(res)
 	os.WriteFile(os.Getenv("VERIF_OUT"), b, 0o644)
 }
